@@ -4,6 +4,7 @@
 (*   [ev |-> "eval", e, s, res (rendering of the result), scopes (renderings*)
 (*      of every caller scope afterwards), pushes, pops, depth0, depth1,    *)
 (*      popempty (H3 scope events of this evaluation)]                      *)
+(*   [ev |-> "ref", e, s, res]  the result of (e, s) from a fresh evaluator  *)
 (*   [ev |-> "parse", same (was the parsing scope left as found)]           *)
 (*   [ev |-> "single", before, after, res, res2]  one-off expressions       *)
 (* The machine: evaluation is pure - scopes never change, the result is a   *)
@@ -24,10 +25,14 @@ TEval == /\ Ev("eval")
          /\ IF Key(E.e, E.s) \in DOMAIN memo THEN memo[Key(E.e, E.s)] = E.res /\ UNCHANGED memo   \* repeatable
             ELSE memo' = [k \in DOMAIN memo \cup {Key(E.e, E.s)} |-> IF k = Key(E.e, E.s) THEN E.res ELSE memo[k]]
          /\ UNCHANGED scopes /\ l' = l + 1
+\* the value of (e, s) evaluated ALONE, by an evaluator built afresh for this one call: every later result must equal it
+TRef == /\ Ev("ref") /\ Key(E.e, E.s) \notin DOMAIN memo
+        /\ memo' = [k \in DOMAIN memo \cup {Key(E.e, E.s)} |-> IF k = Key(E.e, E.s) THEN E.res ELSE memo[k]]
+        /\ UNCHANGED scopes /\ l' = l + 1
 TParse == Ev("parse") /\ E.same /\ UNCHANGED <<scopes, memo>> /\ l' = l + 1
 TSingle == Ev("single") /\ E.before = E.after /\ E.res = E.res2 /\ E.pushes = E.pops /\ E.popempty = 0
            /\ UNCHANGED <<scopes, memo>> /\ l' = l + 1
-Step == TInitEv \/ TEval \/ TParse \/ TSingle
+Step == TInitEv \/ TRef \/ TEval \/ TParse \/ TSingle
 Skip == /\ l <= Len(Recs) /\ ~ENABLED Step
         /\ PrintT(<<"REJECT", l, "this evaluation is not pure: a caller scope changed, the result differs from an earlier one, or the scope stack is unbalanced">>)
         /\ l' = l + 1 /\ UNCHANGED <<scopes, memo>>
